@@ -163,6 +163,11 @@ class Translator:
         elif kwargs:
             raise Unmodelled("unexpected keyword %s for %s" % (list(kwargs), fn.key))
         env["__fn__"] = fn
+        if _is_generator(fn.node):
+            # a generator is evaluated eagerly into the list of the values it yields (finite data only)
+            env["__yield__"] = []
+            self.exec_body(fn.node.body, env, fn.mod, depth)
+            return env["__yield__"]
         r = self.exec_body(fn.node.body, env, fn.mod, depth)
         if r is None:
             return None
@@ -179,6 +184,19 @@ class Translator:
     def exec_stmt(self, st, env, mod, depth):
         if isinstance(st, ast.Return):
             return ("return", self.eval(st.value, env, mod, depth) if st.value is not None else None)
+        if isinstance(st, ast.Expr) and isinstance(st.value, (ast.Yield, ast.YieldFrom)):
+            if "__yield__" not in env:
+                raise Unmodelled("yield outside an eagerly evaluated generator")
+            if isinstance(st.value, ast.Yield):
+                env["__yield__"].append(self.eval(st.value.value, env, mod, depth) if st.value.value is not None else None)
+            else:
+                v = self.eval(st.value.value, env, mod, depth)
+                if not isinstance(v, (list, tuple, range)):
+                    raise Unmodelled("yield from a non-constant iterable")
+                env["__yield__"].extend(list(v))
+            if len(env["__yield__"]) > 20000:
+                raise Unmodelled("generator yields more than 20000 values in the interpretation")
+            return None
         if isinstance(st, ast.Expr):
             if isinstance(st.value, ast.Constant):
                 return None
@@ -502,6 +520,10 @@ class Translator:
             return DType(obj)
         if n.attr in ("shape", "dtype") and isinstance(obj, SelfObj) and n.attr in obj.attrs:
             return obj.attrs[n.attr]
+        if isinstance(obj, str) and n.attr == "format":
+            return PyFunc(lambda *a, _s0=obj, **k: _s0.format(*[str(x) for x in a], **{kk: str(vv) for kk, vv in k.items()}))
+        if self.hooks.get("attribute") and not is_sym(obj) and not isinstance(obj, (dict, SelfObj, Opaque, Mod, np.ndarray, DType, list, tuple, str)):
+            return self.hooks["attribute"](self, obj, n.attr, n)  # checker-defined abstract values
         if n.attr in ("shape",):
             if isinstance(obj, np.ndarray):
                 return tuple(sp.Integer(k) for k in obj.shape)  # the component model knows its shape
@@ -603,6 +625,10 @@ class Translator:
                         raise Unmodelled("closure argument %s missing" % p)
             if isinstance(node, ast.Lambda):
                 return self.eval(node.body, env2, callee.mod, depth + 1)
+            if _is_generator(node):
+                env2["__yield__"] = []
+                self.exec_body(node.body, env2, callee.mod, depth + 1)
+                return env2["__yield__"]
             r = self.exec_body(node.body, env2, callee.mod, depth + 1)
             return r[1] if r else None
         if isinstance(callee, PyFunc):
@@ -749,6 +775,23 @@ class Translator:
         if name in ("any", "all"):
             vals = [self.truth(x) for x in list(a0)]
             return any(vals) if name == "any" else all(vals)
+        if name in ("set.intersection", "set.union"):
+            sets = [PySet(a) for a in args]
+            out = sets[0] if sets else PySet()
+            for o in sets[1:]:
+                out = PySet(x for x in out if x in o) if name.endswith("intersection") else PySet(list(out) + list(o))
+            return out
+        if name == "type" and len(args) == 1:
+            # type(x)(...) rebuilds a container of the same kind
+            if isinstance(a0, PySet):
+                return PyFunc(lambda it=(): PySet(it))
+            if isinstance(a0, dict):
+                return PyFunc(lambda it=(), **kw: dict(it, **kw) if not isinstance(it, dict) else dict(it))
+            if isinstance(a0, list):
+                return PyFunc(lambda it=(): list(it))
+            if isinstance(a0, tuple):
+                return PyFunc(lambda it=(): tuple(it))
+            raise Unmodelled("type() of a symbolic value")
         if name == "str" and len(args) == 1:
             if isinstance(a0, str):
                 return a0
@@ -776,6 +819,13 @@ class Translator:
             return [self.apply(a0, list(items), {}, n, 0) for items in zip(*seqs)]
         if name == "zip":
             return list(zip(*[list(x) for x in args]))
+        if name == "dict":
+            out = {}
+            if a0 is not None:
+                for k_, v_ in (a0.items() if isinstance(a0, dict) else list(a0)):
+                    out[_pykey(k_)] = v_
+            out.update(kwargs)
+            return out
         if name == "enumerate":
             return [(sp.Integer(i), x) for i, x in enumerate(list(a0))]
         if name == "reversed":
@@ -812,6 +862,11 @@ class Translator:
 
     def numeric_call(self, d, last, args, kwargs, n):
         a0 = args[0] if args else None
+        first = self.hooks.get("numeric_call_first")
+        if first:
+            r = first(self, d, args, kwargs, n)
+            if r is not NotImplemented:
+                return r
         r = self.array_call(d, last, args, kwargs, n)
         if r is not NotImplemented:
             return r
@@ -1078,6 +1133,19 @@ class Translator:
         if rel is sp.false:
             return False
         return rel
+
+
+def _is_generator(fnode):
+    """does the function body (not nested defs / lambdas) contain a yield?"""
+    stack = list(getattr(fnode, "body", []))
+    while stack:
+        n = stack.pop()
+        if isinstance(n, (ast.Yield, ast.YieldFrom)):
+            return True
+        if isinstance(n, (ast.FunctionDef, ast.AsyncFunctionDef, ast.Lambda, ast.ClassDef)):
+            continue
+        stack.extend(ast.iter_child_nodes(n))
+    return False
 
 
 class PySet(list):
